@@ -313,7 +313,7 @@ pub fn pick_position(rng: &mut Rng, sparse: bool, promo: bool) -> crate::rules::
 }
 
 pub fn run(ctx: &Ctx) -> i32 {
-    let positions = ctx.n(400, 6000);
+    let positions = ctx.n(640, 8000);
     let (ref_tree_budget, max_engine_nodes): (u64, u64) = match ctx.tier {
         Tier::Quick => (60_000, 200_000),
         Tier::Thorough => (600_000, 2_000_000),
@@ -345,7 +345,9 @@ pub fn run(ctx: &Ctx) -> i32 {
                 } else if promo {
                     if p.legal_moves().len() > 128 { rng.range(1, 2) as u8 } else { rng.range(2, 3) as u8 }
                 } else {
-                    rng.range(1, 3) as u8
+                    // depth 3 twice as often as 1 and 2: what depends on a window closed two
+                    // plies down (null-move-like short cuts) only exists there
+                    *rng.pick(&[1u8, 2, 3, 3])
                 };
                 match prepare_pos(bench, &fen, depth) {
                     Ok(()) => break (fen, depth),
